@@ -87,11 +87,14 @@ def lib():
 
             def __init__(self, timeout=0.2):
                 self.log = []
+                self.metas = []
                 super().__init__(timeout=timeout)
 
             def _process_message(self, message):
                 _id, region = message
                 self.log.append((_id, region.data, region.start))
+                # what the detection's metadata says when this observer gets to see it (every observer is handed the same object)
+                self.metas.append((region.meta.start, region.meta.end))
 
         class Poll(Rec):
             """Recording observer that also looks at the tokenizer worker's own detections list while it handles
@@ -681,6 +684,10 @@ def check(ex, ctx):
         if r.log != want:
             return "observer #%d processed ids %s, split() of %s gives ids %s (or data/start differ)" % (
                 n, _short([x[0] for x in r.log]), what, _short([x[0] for x in want]))
+    for n, r in enumerate(ctx.recs):
+        if r.metas != [(s, e) for i, d, s, e, du in exp]:
+            return "observer #%d saw the metadata (start, end) %s on its detections, split() of %s gives %s" % (
+                n, _short(r.metas), what, _short([(s, e) for i, d, s, e, du in exp]))
     for n, log in enumerate(getattr(ctx, "cmdlogs", ())):
         try:
             sizes = [int(x) for x in open(log).read().split()] if os.path.exists(log) else []
@@ -1139,6 +1146,9 @@ def plan(prop, tier):
         # realistic rate: 1600-sample windows, > 64 KiB of joined audio, a cache smaller than the stream
         tasks.append((dict(kind="run", pattern="AAAAAAAAAAAAaaAAAAAAAAAAAAaaAAAAAAAAAAAAaaAAAAAAAA", observers=["join", "regsave"], split="s1",
                            saver=True, cache=0.5, sr=16000, silence=0.1), 10 ** 6, 0, "directed", None, None))
+        # the same with a raw export and somebody looking at saver.data / joiner.data while the stream runs
+        tasks.append((dict(kind="run", pattern="AAAAAAAAAAAAaaAAAAAAAAAAAAaaAAAAAAAAAAAAaaAAAAAAAA", observers=["poll", "join"], split="s1",
+                           saver=True, saver_name="stream.raw", cache=0.5, sr=16000, silence=0.1, peek=True), 10 ** 6, 0, "directed", None, None))
         # overlapping windows under the stream saver
         for p in ("AaA", "AAAA"):
             tasks.append((dict(base, pattern=p, observers=[], saver=True, cache=0.1, sr=20, hop=0.05), 1, 0, "sync", None, None))
